@@ -289,8 +289,10 @@ func run(s *kernel.Sim, c *scen.Case) {
 				d := kernel.Pick(t, "sleep", 50, 150, 250, 450, 700)
 				s.Sleep("driver", time.Duration(d)*time.Second)
 				now := time.Now()
-				n := cache.InvalidateExpired()
-				_ = n
+				if t.Choose("sweep", 2) == 1 { // nothing in the library schedules the sweep: often it does not run
+					cache.InvalidateExpired()
+					s.Probe("expiry-sweep-ran")
+				}
 				for _, x := range model {
 					if !x.dropped && x.definitelyDead(now) {
 						x.dropped = true
